@@ -15,6 +15,14 @@ CHECKS = {
             "Seeded search over request/reply/bind/back-pressure schedules of the production request/reply router (real Topic::poll, Router, StreamMap) with forged and ill-formed routing tags; every request reaches the replier at most once, in order, tagged unforgeably; every well-tagged reply reaches exactly its requestor once, intact; ill-tagged replies reach nobody. Sampling, not proof.",
             "Trusts the mock sink/stream model; bounds: <=4 requestors, 1 replier (re-binding is C10), <=30 requests per run.",
             "DESIGN.md §5 C02"),
+    "C05": ("exploration", "W", "deterministic simulation: real MessageCodec under FramedRead/FramedWrite over a scripted byte pipe (short writes, pending, seeded chunking)",
+            "Frame sequences of all eight kinds cross a simulated byte pipe whose every write and read outcome is scripted (short writes, Pending, 1-byte chunks, cuts inside the length prefix, several frames per chunk); the decoded sequence must equal the written one, all bytes must be consumed, each prefix must equal a payload length computed independently from bincode's layout, oversize payloads/prefixes must be refused (the latter as soon as the 9 header bytes are in, with no payload buffered), batches must unbatch to the same messages.",
+            "Sampling over frames/chunkings, not proof; payload sizes near 1 MiB are rare (1-2 % of runs).",
+            "DESIGN.md §5 C05"),
+    "C06": ("exploration", "W", "deterministic simulation with fault injection: seeded corruption of valid encodings fed to every decoder through the scripted pipe, panic and allocation guards",
+            "Valid encodings (frame streams, batch bodies, codec payloads, compressed payloads, a publisher's compress(batch(encode)) output) are corrupted by seeded faults (bit flips, truncation, insertion/deletion, duplicated chunks, adversarial length fields up to 2^64-1, random bytes) and decoded under seeded chunking; a panic, an allocation request beyond 256 MiB + 16 x input, a worker abort or a hang is a violation; uncorrupted inputs must still decode. The real Subscriber/Requestor/Replier decode paths over the simulated network are not covered yet (N part).",
+            "W part only; third-party decompressors are exercised as black boxes through selium-std's wrappers.",
+            "DESIGN.md §5 C06"),
     "C08": ("fault_enumeration", "R", "deterministic simulation with fault injection: complete list of peer-failure placements, each under seeded schedules",
             "Every point of a listed space of fault placements (failing peer position x sink operation x message index; failing/ending stream x index; bound replier sink failing, then a fresh replier) is executed against the real routers under seeded ready/pending schedules of the healthy peers, plus random one- and two-peer failures; healthy peers must satisfy the C01/C02 models, the router must not panic, a failed replier must be replaceable.",
             "A failure is a sink operation returning Err from a scripted point on, or a stream yielding Err/ending; bounds as stated in the evidence (exhaustive_space).",
